@@ -49,7 +49,7 @@ def _corrupt(evs):
 def plans(tier):
     # in-place histories: the keys are read after every action, also after an in-place one on the same object
     extra = [("d2-inplace1-all", 1, 1), ("d2-inplace2-all", 1, 6)] if tier == "quick" else [("d2-inplace1-all", 2, 1), ("d2-inplace2-all", 2, 1)]
-    return progcheck.standard_plans(tier) + extra
+    return progcheck.standard_plans(tier) + extra + [("d1-diamond", 3 if tier == "quick" else 8, 1)]
 
 
 def run(chk):
